@@ -1,6 +1,7 @@
 //! vh — conformance harness binding the TLA+ specification in /verif/tla to sonic-rs (/repo).
 mod dump;
 mod jt;
+mod lg;
 mod util;
 
 #[global_allocator]
@@ -13,6 +14,7 @@ fn main() {
     let code = match cmd {
         "jt-replay" => jt::replay(&args),
         "jt-record" => jt::record(&args),
+        "lg-record" => lg::record(&args),
         _ => { eprintln!("unknown command {cmd}"); 2 }
     };
     std::process::exit(code);
